@@ -399,6 +399,12 @@ def run(ctx):
             key = f'{what}: {clause} ({fam}, {ops})'
         ctx.violation(key, {'event': ev, 'context': det})
 
+    # ---------------------------------------------------------------- growth: time_at_sample_from_tof as a
+    # flight state machine (spec/conv/Growth_TimeAtSample.tla; deviations are GROWTH-FINDINGs, not
+    # violations of C05)
+    from .. import lib_growth_timeatsample
+    lib_growth_timeatsample.run(ctx)
+
 
 META = {
     'design_ref': 'DESIGN.md §5 C05',
